@@ -611,6 +611,76 @@ func main() {
 		{"Type": "custom"}, {"BBox": []interface{}{1.0, 2.0}, "TYPE": 7.0}, {"Features": "none"}, {"geometry": nil, "properties": map[string]interface{}{"a": 1.0}, "id": 3.0, "coordinates": []interface{}{}},
 		// names and values that need escaping in JSON: control characters, DEL, quotes, separators, astral runes
 		{"unit\x1fsep": "v\x1f", "bell\a": 1.0}, {"del\x7f": "\x7f", "q\"\\": "é\U0001F600\u2028<&>"}, {"tab\t\n": "line\r\n", "\U0001F600": "\b\f"}}
+	// a bbox is a list of numbers the library carries, whatever they say: boxes whose lower corner exceeds the upper
+	// one (RFC 7946 5.2 writes an antimeridian crossing that way), 2- to 6-number lists, a degenerate box
+	bboxMenu := []geojson.BBox{
+		nil, {}, {177, -20, -178, -16}, {-5, 8, 5, 3}, {5, 8, -5, 3}, {0, 0, 9, 1, 1, 2}, {3, 3, 3, 3}, {1, 2}, {1, 2, 3}, {1, 2, 3, 4, 5},
+		{-180, -90, 180, 90}, {180, 90, -180, -90}, {0, 0, 0, 0, 0, 0}, {1e21, -1e-7, 5e-324, -0.5},
+	}
+	r.Explore("bbox-values", fmt.Sprintf("%d bbox lists (absent, empty, lower corner above the upper one on x / y / z, 2..6 numbers, degenerate, whole world and its reverse, exponent forms) x {on a feature, on a feature inside a collection, on the collection} x 3 geometries, JSON and BSON: the list comes back number for number", len(bboxMenu)), mc.Opts{MaxDev: -1}, func(c *mc.Ctx) {
+		bb := bboxMenu[c.Choose(len(bboxMenu))]
+		where := c.Choose(3)
+		g := []orb.Geometry{orb.Point{1, 2}, orb.LineString{{177, -20}, {-178, -16}}, nil}[c.Choose(3)]
+		mk := func() (*geojson.Feature, *geojson.FeatureCollection) {
+			f := geojson.NewFeature(orb.Clone(g))
+			fc := geojson.NewFeatureCollection()
+			fc.Append(geojson.NewFeature(orb.Point{0, 0}))
+			fc.Append(f)
+			if where < 2 {
+				f.BBox = append(geojson.BBox(nil), bb...)
+				if bb != nil && len(bb) == 0 {
+					f.BBox = geojson.BBox{}
+				}
+			} else {
+				fc.BBox = append(geojson.BBox(nil), bb...)
+			}
+			return f, fc
+		}
+		same := func(got geojson.BBox) bool { return sameBBox(got, bb) }
+		desc := fmt.Sprintf("bbox=%v where=%d geometry=%v", bb, where, g)
+		f, fc := mk()
+		switch where {
+		case 0:
+			if b, err := json.Marshal(f); err != nil {
+				c.Failf("json-marshal", "%v | %s", err, desc)
+			} else if got, err := geojson.UnmarshalFeature(b); err != nil || !same(got.BBox) {
+				c.Failf("feature-json", "bbox came back as %v (%v) from %s | %s", got.BBox, err, b, desc)
+			}
+			got := &geojson.Feature{}
+			if b, err := bson.Marshal(f); err != nil {
+				c.Failf("bson-marshal", "%v | %s", err, desc)
+			} else if err := bson.Unmarshal(b, got); err != nil || !same(got.BBox) {
+				c.Failf("feature-bson", "bbox came back as %v (%v) | %s", got.BBox, err, desc)
+			}
+		default:
+			pick := func(x *geojson.FeatureCollection) geojson.BBox {
+				if x == nil {
+					return geojson.BBox{math.NaN()}
+				}
+				if where == 2 {
+					return x.BBox
+				}
+				if len(x.Features) != 2 {
+					return geojson.BBox{math.NaN()}
+				}
+				return x.Features[1].BBox
+			}
+			if b, err := json.Marshal(fc); err != nil {
+				c.Failf("json-marshal", "%v | %s", err, desc)
+			} else if got, err := geojson.UnmarshalFeatureCollection(b); err != nil || !same(pick(got)) {
+				c.Failf("fc-json", "bbox came back as %v (%v) from %s | %s", pick(got), err, b, desc)
+			}
+			got := geojson.NewFeatureCollection()
+			if b, err := bson.Marshal(fc); err != nil {
+				c.Failf("bson-marshal", "%v | %s", err, desc)
+			} else if err := bson.Unmarshal(b, got); err != nil || !same(pick(got)) {
+				c.Failf("fc-bson", "bbox came back as %v (%v) | %s", pick(got), err, desc)
+			}
+		}
+		if len(bb) > 0 {
+			c.NonTrivial()
+		}
+	})
 	r.Explore("feature-collections", "collections of 0..2 features x 11 foreign-member sets (incl. case variants of the reserved names and names / values that need JSON escaping) x bbox, JSON and BSON, under every iteration order of the map ranges in package geojson (<= 4 keys)", mc.Opts{MaxDev: ev.Pick(r, 4, 5), Workers: 1}, func(c *mc.Ctx) {
 		fc := geojson.NewFeatureCollection()
 		for i, k := 0, c.Choose(3); i < k; i++ {
